@@ -47,7 +47,7 @@ class C01(PropBase):
                 continue
             t = rng.choice(roots)
             if "twin" in sw and rng.random() < 0.3:
-                tw = [x for x in hist.type_twins(rng, t) if _same_union_order(t, x)]
+                tw = hist.order_preserving_twins(rng, t)
                 if tw:
                     t = rng.choice(tw)
             trace = []
